@@ -169,7 +169,15 @@ func (l *c12Listener) Addr() net.Addr { return &net.TCPAddr{IP: net.IPv4(127, 0,
 
 func c12IPKey(ip int) uint32 { return 10<<24 | uint32(ip) }
 
-const c12Wait = 5 * time.Second
+var c12StuckCases atomic.Int32
+
+// c12WaitFor is the patience for one observation; once a few cases got stuck the rest of the run fails fast.
+func c12WaitFor() time.Duration {
+	if c12StuckCases.Load() >= 3 {
+		return 300 * time.Millisecond
+	}
+	return 5 * time.Second
+}
 
 type c12ConnSt struct {
 	c        *c12Conn
@@ -195,6 +203,7 @@ type c12ConnSt struct {
 type c12World struct {
 	s          *fasthttp.Server
 	C, M       int
+	mode       byte
 	keep       bool
 	ln         *c12Listener
 	serveDone  chan error
@@ -344,7 +353,7 @@ func c12Recv[T any](ch chan T) (v T, ok bool) {
 	select {
 	case v = <-ch:
 		return v, true
-	case <-time.After(c12Wait):
+	case <-time.After(c12WaitFor()):
 		return v, false
 	}
 }
@@ -410,7 +419,7 @@ func (w *c12World) open(entry byte, ip int, bad bool) bool {
 	if entry == 's' {
 		select {
 		case w.ln.ch <- cs.c:
-		case <-time.After(c12Wait):
+		case <-time.After(c12WaitFor()):
 			w.stuck = "accept loop does not accept"
 			return false
 		}
@@ -424,26 +433,43 @@ func (w *c12World) open(entry byte, ip int, bad bool) bool {
 			w.tok(op, "A")
 			return true
 		case <-cs.c.closedCh:
-		case <-time.After(c12Wait):
+		case <-time.After(c12WaitFor()):
 			w.stuck = op + ": neither served nor rejected"
 			return false
 		}
 	}
 	// rejected (or malformed): a response, then the close
-	st, ok := cs.c.clientResponse(c12Wait)
+	st, ok := cs.c.clientResponse(c12WaitFor())
 	if !ok {
 		w.stuck = op + ": no response and no close"
 		return false
 	}
 	select {
 	case <-cs.c.closedCh:
-	case <-time.After(c12Wait):
+	case <-time.After(c12WaitFor()):
 		w.stuck = op + fmt.Sprintf(": status %d but the connection was not closed", st)
 		w.violate("rejected-not-closed", fmt.Sprintf("%s answered %d and left the connection open", op, st))
 		return false
 	}
 	cs.status = st
 	cs.closed = true
+	sameIP, active := 0, 0
+	for _, o := range w.conns {
+		if o != cs && o.admitted && !o.closed {
+			if o.ip == ip {
+				sameIP++
+			}
+			if !o.hijacked {
+				active++
+			}
+		}
+	}
+	switch {
+	case st == 429 && (w.M == 0 || ip == 0 || sameIP < w.M):
+		w.violate("unjustified-429", fmt.Sprintf("%s: rejected with 429 while %d connection(s) from that address are open (MaxConnsPerIP=%d)", op, sameIP, w.M))
+	case st == 503 && w.mode == 'd' && active < w.C:
+		w.violate("unjustified-503", fmt.Sprintf("%s: ServeConn answered 503 while %d connection(s) are being served (Concurrency=%d)", op, active, w.C))
+	}
 	switch st {
 	case 429:
 		if entry == 'd' {
@@ -492,7 +518,7 @@ func (w *c12World) do(op byte, k int) bool {
 		}
 		cs.release <- 'R'
 		cs.parked = false
-		if st, ok := cs.c.clientResponse(c12Wait); !ok || st != 200 {
+		if st, ok := cs.c.clientResponse(c12WaitFor()); !ok || st != 200 {
 			w.stuck = name + fmt.Sprintf(": no 200 response (%d)", st)
 			return false
 		}
@@ -525,7 +551,7 @@ func (w *c12World) do(op byte, k int) bool {
 		}
 		cs.release <- 'C'
 		cs.parked = false
-		if st, ok := cs.c.clientResponse(c12Wait); !ok || st != 200 {
+		if st, ok := cs.c.clientResponse(c12WaitFor()); !ok || st != 200 {
 			w.stuck = name + fmt.Sprintf(": no 200 response (%d)", st)
 			return false
 		}
@@ -569,24 +595,38 @@ func (w *c12World) do(op byte, k int) bool {
 		if !w.keep {
 			select {
 			case <-cs.c.closedCh:
-			case <-time.After(c12Wait):
+			case <-time.After(c12WaitFor()):
 				w.stuck = name + ": hijacked connection not closed by the server"
 				return false
 			}
 			if reg {
-				for i := 0; i < 200000 && w.s.VerifPerIPCount(c12IPKey(cs.ip)) >= before; i++ {
-					time.Sleep(10 * time.Microsecond)
+				// perIPConn.Close unregisters right after closing the inner connection
+				budget := 2 * time.Second
+				if c12QuietFails.Load() >= 3 {
+					budget = 10 * time.Millisecond
+				}
+				for deadline := time.Now().Add(budget); w.s.VerifPerIPCount(c12IPKey(cs.ip)) >= before; {
+					if time.Now().After(deadline) {
+						c12QuietFails.Add(1)
+						break
+					}
+					time.Sleep(20 * time.Microsecond)
 				}
 			}
 			cs.closed = true
 		}
 		w.tok(name, "-")
 	case 'K': // the owner closes the kept hijacked connection (a second close must change nothing)
-		if !w.keep || !cs.hijacked || !cs.hjDone || cs.kept == nil {
+		if !w.keep || !cs.hijacked || !cs.hjDone || cs.kept == nil || cs.closed {
 			return true
 		}
 		cs.kept.Close()
 		cs.closed = true
+		w.tok(name, "-")
+		// closing it again right away must change nothing (perIPConn.Close nils its Conn).  A LATER second close is
+		// not exercised: the wrapper is pooled, so a stale close would hit whichever connection reuses it (see the
+		// note in the final report of this slice; outside C12).
+		cs.kept.Close()
 		w.tok(name, "-")
 	}
 	return true
@@ -642,7 +682,7 @@ func (w *c12World) quiescentCounters() (string, bool) {
 	want := "0,0,0,0,0,0"
 	budget := 2 * time.Second
 	if c12QuietFails.Load() >= 3 {
-		budget = 50 * time.Millisecond
+		budget = 10 * time.Millisecond
 	}
 	deadline := time.Now().Add(budget)
 	var got string
@@ -704,11 +744,12 @@ func init() {
 				return nil
 			}
 			mode := a[0][0]
-			C, M, keep := c39ishAtoi(a[1]), c39ishAtoi(a[2]), c39ishAtoi(a[3]) != 0
+			C, M, keep := c12Atoi(a[1]), c12Atoi(a[2]), c12Atoi(a[3]) != 0
 			if C < 1 || C > 4 || M < 0 || M > 3 || (mode != 's' && mode != 'd' && mode != 'm') {
 				return nil
 			}
 			w := newC12World(C, M, keep)
+			w.mode = mode
 			ops := a[4]
 			tags := []string{"mode:" + string(mode), fmt.Sprintf("C%d", C), fmt.Sprintf("M%d", M)}
 			switch kind {
@@ -734,7 +775,6 @@ func init() {
 						}
 					case 'K':
 						w.do('K', x)
-						w.do('K', x)
 					default:
 						w.do(op, x)
 					}
@@ -748,6 +788,7 @@ func init() {
 				return nil
 			}
 			if w.stuck != "" {
+				c12StuckCases.Add(1)
 				w.abort()
 			}
 			final, zero := "", false
@@ -800,9 +841,9 @@ func init() {
 				}}
 		},
 		Gen: func(r *Rand, tier string, emit func(string, ...[]byte)) {
-			n, nb := 1500, 250
+			n, nb := 8000, 1000
 			if tier == "thorough" {
-				n, nb = 40000, 5000
+				n, nb = 150000, 15000
 			}
 			modes := []byte("sdm")
 			fixed := []struct {
@@ -868,7 +909,7 @@ func init() {
 	})
 }
 
-func c39ishAtoi(b []byte) int { n, _ := strconv.Atoi(string(b)); return n }
+func c12Atoi(b []byte) int { n, _ := strconv.Atoi(string(b)); return n }
 
 // c12Burst starts all connections at once (ops[j]&3 = ip, ops[j]&4 = through ServeConn in mixed mode), with handlers
 // parked; checks the monitor at the peak and at quiescence.
@@ -902,7 +943,7 @@ func c12Burst(w *c12World, mode byte, ops []byte, tags []string) *Case {
 			if cs.entry == 's' {
 				select {
 				case w.ln.ch <- cs.c:
-				case <-time.After(c12Wait):
+				case <-time.After(c12WaitFor()):
 				}
 			} else {
 				go func() { cs.ret <- w.s.ServeConn(cs.c) }()
@@ -918,7 +959,7 @@ func c12Burst(w *c12World, mode byte, ops []byte, tags []string) *Case {
 		case <-cs.entered:
 			cs.admitted, cs.parked = true, true
 		case <-cs.c.closedCh:
-			st, _ := cs.c.clientResponse(c12Wait)
+			st, _ := cs.c.clientResponse(c12WaitFor())
 			cs.status, cs.closed = st, true
 			if st != 429 && st != 503 {
 				w.violate("rejected-wrong-status", fmt.Sprintf("burst connection %d closed with status %d (want 429 or 503)", j, st))
@@ -931,7 +972,7 @@ func c12Burst(w *c12World, mode byte, ops []byte, tags []string) *Case {
 			} else if st == 503 {
 				c12Recv(cs.state)
 			}
-		case <-time.After(c12Wait):
+		case <-time.After(c12WaitFor()):
 			stuck = fmt.Sprintf("burst connection %d neither served nor rejected", j)
 		}
 	}
@@ -955,14 +996,19 @@ func c12Burst(w *c12World, mode byte, ops []byte, tags []string) *Case {
 	atRest := ""
 	if stuck == "" {
 		want := fmt.Sprintf("%d,%d", adm[0]+adm[1], adm[0]+adm[1])
-		for i := 0; i < 2000; i++ {
+		budget := 2 * time.Second
+		if c12QuietFails.Load() >= 3 {
+			budget = 10 * time.Millisecond
+		}
+		for deadline := time.Now().Add(budget); ; {
 			atRest = fmt.Sprintf("%d,%d", w.s.GetCurrentConcurrency(), w.s.GetOpenConnectionsCount())
-			if atRest == want {
+			if atRest == want || time.Now().After(deadline) {
 				break
 			}
-			time.Sleep(time.Millisecond)
+			time.Sleep(200 * time.Microsecond)
 		}
 		if atRest != want {
+			c12QuietFails.Add(1)
 			w.violate("counters-wrong-at-rest", fmt.Sprintf("%d connections inside their handlers: GetCurrentConcurrency,GetOpenConnectionsCount = %s, want %s", adm[0]+adm[1], atRest, want))
 		}
 		for j := range css {
@@ -976,6 +1022,7 @@ func c12Burst(w *c12World, mode byte, ops []byte, tags []string) *Case {
 		stuck = w.stuck
 	}
 	if stuck != "" {
+		c12StuckCases.Add(1)
 		w.abort()
 	}
 	final, zero := "", false
